@@ -546,6 +546,7 @@ type loopInfo struct {
 	appended map[types.Object]bool
 	rootVars map[string][]types.Object // per family: variables through which the family is written
 	rootsUnk map[string]bool           // per family: written through something else
+	ghosts   map[string]bool           // ghost variables written by contract-called callees
 }
 
 // analyseLoop collects the variables assigned and heap families written inside a loop (syntactically).
@@ -963,6 +964,7 @@ func (c *Ctx) noteContractWrites(li *loopInfo, call *ast.CallExpr, fn *types.Fun
 		}
 		return false
 	}
+	var ghostHits []string
 	for _, cl := range fc.Modifies {
 		x := cl.Expr
 		if sl, ok := x.(*SSlice); ok {
@@ -970,6 +972,12 @@ func (c *Ctx) noteContractWrites(li *loopInfo, call *ast.CallExpr, fn *types.Fun
 		}
 		switch n := x.(type) {
 		case *SIdent:
+			if _, isParam := paramType[n.Name]; !isParam {
+				if g := c.ghostVarDecl(n.Name); g != nil {
+					ghostHits = append(ghostHits, g.Name)
+					continue
+				}
+			}
 			t, ok := paramType[n.Name]
 			if !ok || !validType(t) || !addType(t) {
 				return false
@@ -1033,6 +1041,12 @@ func (c *Ctx) noteContractWrites(li *loopInfo, call *ast.CallExpr, fn *types.Fun
 		li.heapFams[f] = true
 		li.rootsUnk[f] = true
 	}
+	for _, g := range ghostHits {
+		if li.ghosts == nil {
+			li.ghosts = map[string]bool{}
+		}
+		li.ghosts[g] = true
+	}
 	return true
 }
 
@@ -1087,6 +1101,24 @@ func (c *Ctx) havocLoop(pre *State, li *loopInfo) *State {
 			nv = ns
 		}
 		st.vars[o] = nv
+	}
+	// ghost variables written by callees (all of them when the footprint of some call is unknown)
+	for k, old := range pre.ghosts {
+		if !strings.HasPrefix(k, "gv:") {
+			continue
+		}
+		if li.heapFams["*"] || li.ghosts[strings.TrimPrefix(k, "gv:")] {
+			if s, ok := old.(Scalar); ok {
+				st.ghosts[k] = c.fresh(s.Ty, "ghost_"+strings.TrimPrefix(k, "gv:"), &facts)
+			}
+		}
+	}
+	for g := range li.ghosts {
+		if _, ok := pre.ghosts["gv:"+g]; !ok {
+			if gd := c.ghostVarDecl(g); gd != nil {
+				st.ghosts["gv:"+g] = c.fresh(c.resolveTypeText(gd.Type), "ghost_"+g, &facts)
+			}
+		}
 	}
 	// heap
 	all := li.heapFams["*"]
